@@ -76,6 +76,7 @@ class Runner(object):
         self.ro_sha = None
         self.ro_violations = []
         self.infos = []
+        self.target_ids = []
 
     def sha(self):
         import hashlib
@@ -193,6 +194,13 @@ class Runner(object):
         if t == "set_auto":
             self.f.auto_update_timestamps = op[1]
             return None
+        if t == "force":
+            o = self.obj(op[1])
+            if op[2]:
+                o.force_created_at(op[3])
+            else:
+                o.force_updated_at(op[3])
+            return None
         if t in ("probe", "probe_link"):
             cont = getattr(self.obj(op[1]), CONT_ATTR[op[2]] if t == "probe" else LIST_ATTR[op[2]])
             items = list(cont)
@@ -228,6 +236,10 @@ class Runner(object):
         raise RuntimeError("unknown op %r" % (op,))
 
     def run_op(self, op):
+        tid = None
+        if op[0] in ("set_attr", "set_link", "force", "append", "remove") and op[1] < len(self.handles):
+            tid = self.handles[op[1]][2]
+        self.target_ids.append(tid)
         CLOCK[0] = 1000 + self.step
         self.step += 1
         ids = self.digest.known_ids
@@ -315,7 +327,7 @@ class Gen(object):
             if op[1] not in self.dead:
                 return op
         w = dict(create=10, mtag=2, feature=2, lookup=3, lookup_link=1, delete=2, append=5, remove=2,
-                 set_link=3, set_attr=4, reopen=0.5, bad=1, set_auto=0.2, probe=1, probe_link=0.5)
+                 set_link=3, set_attr=4, reopen=0.5, bad=1, set_auto=0.2, probe=1, probe_link=0.5, force=0)
         w.update(self.profile.get("weights", {}))
         kinds = list(w)
         for _ in range(50):
@@ -464,6 +476,12 @@ class Gen(object):
             return ("reopen", bool(self.profile.get("readonly_reopen")) and rnd.random() < 0.5)
         if t == "set_auto":
             return ("set_auto", rnd.random() < 0.5)
+        if t == "force":
+            hs = self.live(["Block", "Group", "DataArray", "Tag", "MultiTag", "Source", "Section"])
+            if not hs:
+                return None
+            return ("force", rnd.choice(hs), rnd.random() < 0.5,
+                    rnd.choice([0, 1, 86399, 86400, 951782400, 4102444799, rnd.randint(0, 4102444799)]))
         if t == "bad":
             # the malformed stream: an argument the call must refuse
             parents = self.live(["File", "Block", "Source", "Section"])
@@ -544,7 +562,7 @@ def gen_history(seed, length, profile, workdir, with_times, k):
         os.remove(path)
     except OSError:
         pass
-    return {"ops": ops, "results": results, "trace": r.trace, "ro_violations": r.ro_violations, "infos": r.infos,
+    return {"ops": ops, "results": results, "trace": r.trace, "ro_violations": r.ro_violations, "infos": r.infos, "target_ids": r.target_ids,
             "walks": r.walks if profile.get("keep_walks") else None}
 
 
@@ -561,7 +579,7 @@ def replay_history(ops, workdir, with_times, k=0):
     except OSError:
         pass
     return {"ops": ops, "results": results, "trace": r.trace, "walks": r.walks, "ro_violations": r.ro_violations,
-            "infos": r.infos}
+            "infos": r.infos, "target_ids": r.target_ids}
 
 
 def main():
